@@ -388,12 +388,16 @@ class Models:
         obj = ObjLV(e.new_object(), t)
         c = self.find_ctor(t, ctor_t)
         e.init_default_object(st, obj, fr)
+        contract = e.use_contracts.get(t.name + '::' + t.name)
+        if contract is not None:
+            if c is None or not contract.applies(c, e):
+                cands = [d_ for d_ in e.ast.find_functions(t.name + '::' + t.name) if contract.applies(d_, e) and len(e.ast.params_of(d_)) == len(args)]
+                if len(cands) == 1: c = cands[0]
+            if c is not None and contract.applies(c, e):
+                contract.apply_at_call(e, c, obj, args, st, fr, n)
+                return obj
         if c is None or e.ast.body_of(c) is None:
             if args: raise Unsupported('constructor %s of %s has no body' % (ctor_t, t.name))
-            return obj
-        contract = e.use_contracts.get(t.name + '::' + t.name)
-        if contract is not None and contract.applies(c, e):
-            contract.apply_at_call(e, c, obj, args, st, fr, n)
             return obj
         env2 = {}
         e.bind_args(e.ast.params_of(c), args, st, fr, env2)
